@@ -5,14 +5,20 @@ package caskethttp
 
 import (
 	"bytes"
+	stdgzip "compress/gzip"
 	"errors"
+	"io"
 	"net/http"
 	"net/url"
+	"sync"
+	"text/template"
 
 	caskerrors "github.com/tmpim/casket/caskethttp/errors"
+	caskgzip "github.com/tmpim/casket/caskethttp/gzip"
 	"github.com/tmpim/casket/caskethttp/header"
 	"github.com/tmpim/casket/caskethttp/httpserver"
 	casklog "github.com/tmpim/casket/caskethttp/log"
+	"github.com/tmpim/casket/caskethttp/templates"
 	"github.com/tmpim/casket/caskettls"
 	"github.com/tmpim/casket/zzverif/verifrt"
 )
@@ -119,12 +125,59 @@ func (h zzInner) ServeHTTP(w http.ResponseWriter, r *http.Request) (int, error) 
 	return b.ret, nil
 }
 
+// zzTplText: under the engine text/template (reflection) is replaced by an identity renderer -- the
+// bodies drawn here contain no template actions, so natively the real package renders them unchanged.
+var zzTplText string
+
+func zzStubTemplates() {
+	verifrt.Stub("(*text/template.Template).Funcs", func(t *template.Template, _ template.FuncMap) *template.Template { return t })
+	verifrt.Stub("(*text/template.Template).Parse", func(t *template.Template, text string) (*template.Template, error) {
+		zzTplText = text
+		return t, nil
+	})
+	verifrt.Stub("(*text/template.Template).Execute", func(t *template.Template, w io.Writer, _ interface{}) error {
+		_, err := w.Write([]byte(zzTplText))
+		return err
+	})
+}
+
+// zzGunzip12 undoes the gzip coding (engine: the tagging identity model 1f 8b '(' payload ')').
+func zzGunzip12(body []byte) ([]byte, bool) {
+	if verifrt.Symbolic() {
+		if len(body) >= 4 && body[0] == 0x1f && body[1] == 0x8b && body[2] == '(' && body[len(body)-1] == ')' {
+			return body[3 : len(body)-1], true
+		}
+		return nil, false
+	}
+	zr, err := stdgzip.NewReader(bytes.NewReader(body))
+	if err != nil {
+		return nil, false
+	}
+	out, err := io.ReadAll(zr)
+	return out, err == nil
+}
+
+type zzWrappers struct {
+	log, header, errors, debug, gzip, templates bool
+}
+
 func zzServer(b *zzBehaviour, useLog, useHeader, useErrors, debug bool) *httpserver.Server {
+	return zzServerWith(b, zzWrappers{log: useLog, header: useHeader, errors: useErrors, debug: debug})
+}
+
+func zzServerWith(b *zzBehaviour, wr zzWrappers) *httpserver.Server {
+	useLog, useHeader, useErrors, debug := wr.log, wr.header, wr.errors, wr.debug
 	site := &httpserver.SiteConfig{Addr: httpserver.Address{Original: "", Host: ""}, TLS: &caskettls.Config{}}
 	var sink bytes.Buffer
 	if useLog {
 		site.AddMiddleware(func(next httpserver.Handler) httpserver.Handler {
 			return casklog.Logger{Next: next, Rules: []*casklog.Rule{{PathScope: "/", Entries: []*casklog.Entry{{Format: "{status} {size}", Log: httpserver.NewTestLogger(&sink)}}}}}
+		})
+	}
+	if wr.gzip {
+		site.AddMiddleware(func(next httpserver.Handler) httpserver.Handler {
+			return caskgzip.Gzip{Next: next, Configs: []caskgzip.Config{{RequestFilters: []caskgzip.RequestFilter{caskgzip.DefaultExtFilter()},
+				ResponseFilters: []caskgzip.ResponseFilter{caskgzip.SkipCompressedFilter{}}}}}
 		})
 	}
 	if useHeader {
@@ -135,6 +188,12 @@ func zzServer(b *zzBehaviour, useLog, useHeader, useErrors, debug bool) *httpser
 	if useErrors {
 		site.AddMiddleware(func(next httpserver.Handler) httpserver.Handler {
 			return caskerrors.ErrorHandler{Next: next, Log: httpserver.NewTestLogger(&sink), Debug: debug}
+		})
+	}
+	if wr.templates {
+		site.AddMiddleware(func(next httpserver.Handler) httpserver.Handler {
+			return templates.Templates{Next: next, Rules: []templates.Rule{{Path: "/", Extensions: []string{".html"}}},
+				FileSys: http.Dir("."), BufPool: &sync.Pool{New: func() interface{} { return new(bytes.Buffer) }}}
 		})
 	}
 	site.AddMiddleware(func(next httpserver.Handler) httpserver.Handler { return zzInner{b} })
@@ -189,4 +248,66 @@ func VerifH12OneResponse() {
 	s.ServeHTTP(w2, r2)
 	verifrt.Assert(w2.status == 200 && string(w2.body) == "ok", "next-request-served")
 	verifrt.Observe("resp", w.status, len(w.body) > 0)
+}
+
+// VerifH12Wrapped: the same statement with the response-rewriting wrappers in the chain: gzip (the
+// client offering gzip or not) and templates (the response is buffered, rendered and re-sent), in
+// any combination with errors and header. Body bytes contain no template action.
+func VerifH12Wrapped() {
+	b := zzDraw()
+	for _, c := range b.chunks {
+		for _, x := range c {
+			verifrt.Assume(x != '{')
+		}
+	}
+	wr := zzWrappers{header: verifrt.Bool("header"), errors: verifrt.Bool("errors"), gzip: verifrt.Bool("gzip"), templates: verifrt.Bool("templates")}
+	verifrt.Assume(wr.gzip || wr.templates)
+	wr.debug = wr.errors && verifrt.Bool("debug")
+	if wr.templates {
+		zzStubTemplates()
+	}
+	s := zzServerWith(&b, wr)
+	w := &zzClient{}
+	r := &http.Request{Method: "GET", Host: "h", URL: &url.URL{Path: "/x.html"}, Header: http.Header{}, RemoteAddr: "1.2.3.4:5", ProtoMajor: 1, Proto: "HTTP/1.1"}
+	offered := wr.gzip && verifrt.Bool("accept-gzip")
+	if offered {
+		r.Header.Set("Accept-Encoding", "gzip")
+	}
+	s.ServeHTTP(w, r)
+
+	if !(b.panicWhen == 2) {
+		verifrt.Assert(w.superfluous == 0, "header-committed-once")
+	}
+	var innerBody []byte
+	for _, c := range b.chunks {
+		innerBody = append(innerBody, c...)
+	}
+	body := w.body
+	if w.Header().Get("Content-Encoding") == "gzip" {
+		verifrt.Assert(offered, "gzip-only-when-offered")
+		if b.panicWhen == 0 {
+			// (a handler that panics after it has started writing leaves a truncated stream)
+			dec, ok := zzGunzip12(w.body)
+			verifrt.Assert(ok || len(w.body) == 0, "gzip-labelled-body-is-gzip")
+			body = dec
+		}
+	}
+	switch {
+	case b.panicWhen == 1:
+		verifrt.Assert(w.status == 500, "panic-before-writing-gives-500")
+	case b.writes && b.panicWhen == 0:
+		want := b.status
+		if want == 0 {
+			want = 200
+		}
+		verifrt.Assert(w.status == want, "written-status-unaltered")
+		if want != 204 {
+			verifrt.Assert(bytes.Equal(body, innerBody), "written-body-unaltered")
+		}
+		verifrt.Assert(w.Header().Get("X-Inner") == "1", "inner-headers-kept")
+	case !b.writes && b.ret >= 400:
+		verifrt.Assert(w.status == b.ret, "error-status-delivered")
+		verifrt.Assert(len(body) > 0, "error-body-present")
+	}
+	verifrt.Observe("wrapped", w.status, len(body) > 0) // (error bodies carry a stack trace in visible mode)
 }
